@@ -216,6 +216,70 @@ def run_cli(S, tier):
                 shutil.rmtree(root, ignore_errors=True)
 
 
+def extra_cases(S, tier):
+    """(a) multiplexed bindings whose selector is the LAST field and whose size is around the limit;
+    (b) 'endianess: big' on fields that are not byte-aligned / not whole bytes: either generation fails or
+    what is emitted must satisfy the geometric invariant."""
+    from fcp.parser import get_fcp_from_string
+    from fcp.error import Logger
+    from fcp.codegen import GeneratorManager
+    from fcp.verifier import make_general_verifier
+    import fcp_dbc
+
+    cases = []
+    for widths in ((32, 24, 8), (32, 32, 8), (32, 31, 2), (16, 48, 1), (64, 8), (60, 5), (32, 16, 8)):
+        n = len(widths)
+        decl = ("struct", "Msg", tuple(("f%d" % i, i, U(w), None, None) for i, w in enumerate(widths)))
+        sig = tuple(("f%d" % i, (("mux_signal", "f%d" % (n - 1)), ("mux_count", 2))) for i in range(n - 1))
+        cases.append(("mux-selector-last", sum(widths), [decl, ("impl", "can", "Msg", None, (("id", 2), ("device", "ecu")), sig)]))
+    for fields, big in (((U(4), U(16)), (1,)), ((U(4), U(16), U(8)), (1,)), ((U(32), U(16), U(12), U(4)), (3,)), ((U(3), U(12)), (1,)), ((U(8), U(12), U(4)), (1,)), ((U(1), U(32), U(31)), (1, 2))):
+        decl = ("struct", "Msg", tuple(("f%d" % i, i, t, None, None) for i, t in enumerate(fields)))
+        sig = tuple(("f%d" % i, (("endianess", "big"),)) for i in big)
+        cases.append(("big-endian-odd", sum(t[1] for t in fields), [decl, ("impl", "can", "Msg", None, (("id", 2), ("device", "ecu")), sig)]))
+    for kind, bits, decls in cases:
+        text = print_schema(decls)
+        fcp = get_fcp_from_string(text, Logger({})).unwrap()
+        S.count("states")
+        S.count("transitions")
+        S.add("nontrivial", (kind, text))
+        inp = {"text": text, "size_bits": bits, "kind": kind}
+        S.count("executions")
+        try:
+            res = {r["bus"]: str(r["contents"]) for r in fcp_dbc.Generator().generate(fcp, {"output": "/nonexistent-out"})}
+        except Exception:  # noqa
+            res = None
+        S.add("outcomes", (kind, "dbc", res is None))
+        if res is not None:
+            if bits > 64:
+                S.violation("C14.dbc", "C14.dbc/message-emitted/size>64/%s" % kind, dict(inp, generator="dbc"), expected="generation fails", actual=[l for t in res.values() for l in t.split("\n") if l.startswith(("BO_", " SG_"))])
+            for t in res.values():
+                for m in dbcread.read(t)["messages"].values():
+                    errs = geometry_errors(m)
+                    if errs:
+                        S.violation("C14.geometry", "C14.geometry/dbc/%s" % kind, dict(inp, generator="dbc"), expected="signals inside the message, no overlap", actual=errs[:4])
+        S.count("executions")
+        root = tempfile.mkdtemp(prefix="fcpmc-c14x-")
+        try:
+            out = os.path.join(root, "out")
+            os.makedirs(out)
+            try:
+                with contextlib.redirect_stdout(io.StringIO()):
+                    r = GeneratorManager(make_general_verifier()).generate("can_c", None, None, fcp, out)
+                verdict = "ok" if r.is_ok() else "err"
+            except Exception:  # noqa
+                verdict = "exception"
+            written = {fn: open(os.path.join(out, fn)).read() for fn in sorted(os.listdir(out))}
+            S.add("outcomes", (kind, "c", verdict))
+            if bits > 64 and (verdict == "ok" or any("CanMsgMsg" in t for t in written.values())):
+                S.violation("C14.c", "C14.c/message-emitted/size>64/%s" % kind, dict(inp, generator="can_c"), expected="command fails", actual={"verdict": verdict, "files": sorted(written)})
+            if verdict == "ok":
+                errs = c_geometry_errors(written.get("ecu_can.c", ""), "msg")
+                if errs:
+                    S.violation("C14.geometry", "C14.geometry/c/%s" % kind, dict(inp, generator="can_c"), expected="signals inside the frame, no overlap", actual=errs[:4])
+        finally:
+            shutil.rmtree(root, ignore_errors=True)
+
+
 def run(tier):
     common.bind_repo()
     r = Run("C14", tier)
@@ -223,6 +287,7 @@ def run(tier):
     r.bounds = {"size_cases": len(size_cases(tier)), "variable_cases": len(variable_cases(tier)), "sizes": SIZES}
     for s in pmap(make_worker(tier), chunks(list(enumerate(cases)), 25)):
         r.stats.merge(s)
+    extra_cases(r.stats, tier)
     run_cli(r.stats, tier)
     r.rule = (
         "states = CAN bindings of every packed size in 57..72, 80, 96, 128, 200 bits with the 'last straw' (1,3,8 bits; thorough also 2,5,9) as a top-level scalar, a (doubly) nested struct field, array elements, "
